@@ -29,13 +29,16 @@ def build(tier, known):
     for n in range(0, (2 if q else 3) + 1):
         cfgs.append(('string_bytes', dict(n=n, kind='string', preserve=False, max_length=None, exclude=[0x3c], ascii_only=False), 'ALL byte strings without `<` (incl. invalid UTF-8)'))
         cfgs.append(('pattern_bytes', dict(n=n, kind='pattern', max_length=None, ascii_only=False), 'ALL byte strings (incl. invalid UTF-8); validator uninterpreted'))
+    for n in range(0, (3 if q else 4) + 1):
+        cfgs.append(('uint_bytes', dict(n=n, kind='uint', ascii_only=False), 'ALL byte strings (incl. non-ASCII white space, invalid UTF-8)'))
+        cfgs.append(('float_bytes', dict(n=n, kind='float', ascii_only=False), 'ALL byte strings; f64 parsing uninterpreted'))
     for tag, params, dom in cfgs:
         n = params['n']
         hs.append(E2Spec(f'e2_c08_{tag}_n{n}', 'C08Value', params, functions=FUNCS,
                          bound=f'{dom}; length exactly {n}; symbolic current line L in a document of T lines; every feasible MIR path pair explored',
-                         claim=CLAIM, native=('data', 'n_c08_value'), parts=(16 if n >= 6 else (8 if n == 5 else 1)), timeout=900 if q else 7200))
+                         claim=CLAIM, native=('data', 'n_c08_value'), parts=(16 if (n >= 6 or (n >= 3 and not params.get('ascii_only', True))) else (8 if n == 5 else 1)), timeout=900 if q else 7200))
     hs.append(Harness('n_attr_text', 'data', 'parser.rs', '', functions=[], bound='', claim='', role='native'))
-    for n in range(0, (6 if q else 8) + 1):
+    for n in range(0, (5 if q else 7) + 1):
         hs.append(E2Spec(f'e2_c08_attrtext_n{n}', 'AttrText', dict(n=n, mode='relational'),
                          functions=['parser::ArxmlParser::parse_attribute_text', 'parser::ArxmlParser::parse_character_data', 'parser::ArxmlParser::check_version', 'parser::ArxmlParser::optional_error'],
                          bound=f'all ASCII attribute texts of length exactly {n}; element type with two attributes (string-typed, unsigned-integer-typed) with symbolic names, required flags and version masks; attribute-name lookup uninterpreted; any single-bit file version',
